@@ -201,6 +201,14 @@ type ReadResult struct {
 	Hang     bool // step cap exceeded
 }
 
+// ErrText is the error the reader reported (constructor or Error()).
+func (r *ReadResult) ErrText() string {
+	if r.CtorFail {
+		return "constructor: " + r.CtorErr
+	}
+	return "Error(): " + r.FinalErr
+}
+
 // Reported is true when the reader reported an error to its caller.
 func (r *ReadResult) Reported() bool { return r.CtorFail || r.Failed }
 
